@@ -541,6 +541,10 @@ class Canon(object):
 
     def norm_if(self, s, rest):
         """canonical statements for `s` followed by the (already canonical) statements *rest*"""
+        if isinstance(s.test, ast.Constant):
+            # N33  a test that became a constant (a helper inlined with a literal argument): only the branch taken remains
+            self.hit('N33')
+            return list(s.body if s.test.value else s.orelse) + rest
         if s.orelse and all(isinstance(x, ast.Pass) for x in s.orelse):
             s = ast.copy_location(ast.If(test=s.test, body=s.body, orelse=[]), s)          # N27  an else that does nothing
         # N25  if C: x = True else: x = False  ->  x = C   (x = not C for the mirrored constants)
